@@ -260,6 +260,31 @@ CHECKS = {
             {"harness": "c17_retry", "flavour": "asan", "runs": {"quick": 2500, "thorough": 250000}, "wall": {"quick": 80, "thorough": 2400}},
         ],
     },
+    "C18": {
+        "level": "exploration",
+        "rule": ("each run = one WebSocket connection; the peer (own RFC 6455 encoder/decoder, masked towards the server, unmasked towards the client) sends 1-4 (6 thorough) text or "
+                 "binary messages of 0, 1, 2, 5, 125, 126, 127, 300, 1000, 65535, 65536 or 70000 bytes (bounded by the configured maximum), each as 1-4 fragments incl. empty first/last "
+                 "fragments, text with multi-byte code points that fragment and read boundaries cut, an eighth of the text messages invalid UTF-8, PING (0-125 byte payloads) and PONG "
+                 "frames before, between fragments and after, optionally a CLOSE (1000/1001/3000/4999, with or without reason); the byte stream is delivered uncut, with one drawn "
+                 "cut, many drawn cuts, cuts inside every frame header, or every byte apart (streams up to 700 bytes) / a drawn stride; towards the client optionally in the same "
+                 "segment as the 101 response; 0-2 application threads keep sending text and binary messages (incl. 125/126/127/65535/65536-byte ones) every 50-3050 us while the "
+                 "peer's close arrives or the endpoint itself sends a close at a drawn moment; a quarter of the runs end in a hostile header instead (2^64-1 length, control frame "
+                 "with length code 126 or 127, twice the configured maximum, 2^40, PING without FIN, reserved opcode, RSV1, random bytes) followed by 4 x maximum + 1 MiB of data. "
+                 "Oracle: messages delivered = messages sent (type, bytes, order) up to the first invalid one, which is never delivered; every byte the endpoint wrote decodes as "
+                 "well-formed, minimally encoded, correctly masked frames; pongs carry the pings' payloads in order and none is missing; no TEXT/BINARY/CONTINUATION frame follows "
+                 "the endpoint's own CLOSE frame; after the close handshake the server closes; behind a hostile header the heap grows by less than three quarters of what was sent (allocator "
+                 "census) and the server still answers a fresh upgrade (I/O thread alive, nothing thrown)"),
+        "real": ["iora::network::WebSocketFrame parse/serialize/isValidUtf8", "iora::network::WebSocketServer (upgrade, onUpgradedData, reassembly, ping/pong, close handshake, send gating) on HttpServer", "iora::network::WebSocketClient (upgrade, handleData, reassembly, send gating)",
+                 "iora::network::Transport / TcpEngine"],
+        "stub": COMMON_STUB + ["crypto::SecureRng (mask keys, Sec-WebSocket-Key): getrandom is served from the seeded fault stream"],
+        "assumptions": ["a client that sends frames before it has received the 101 response violates RFC 6455 4.1; such streams are not generated",
+                        "what an endpoint delivers or answers behind a hostile header is not judged, only that it neither throws nor hoards",
+                        "parse(serialize(f)) on its own is a pure function; it is exercised here only through the two endpoints against the independent codec"],
+        "jobs": [
+            {"harness": "c18_ws", "mode": "server", "flavour": "asan", "runs": {"quick": 6000, "thorough": 600000}, "wall": {"quick": 40, "thorough": 2400}, "seed_off": 1},
+            {"harness": "c18_ws", "mode": "client", "flavour": "asan", "runs": {"quick": 5000, "thorough": 500000}, "wall": {"quick": 50, "thorough": 2400}, "seed_off": 2},
+        ],
+    },
     "C19": {
         "level": "exploration",
         "rule": ("cache job: each run = one seeded history of 6-65 steps over 6 names (three spellings of one name differing only in case, a name that extends another) x 3 types x 2 "
